@@ -52,6 +52,7 @@ type c09Obs struct {
 	Items   []string    `json:"items"`
 	Waiters []c09Waiter `json:"waiters"`
 	Refused []uint64    `json:"refused"`
+	GaveUp  []uint64    `json:"gaveup"`
 	Crashed bool        `json:"crashed"`
 	CloseOK bool        `json:"close_ok"`
 	Panic   string      `json:"panic,omitempty"`
@@ -66,10 +67,10 @@ func (s *c09Signer) SignHash(h []byte) ([]byte, error) { return crypto.Sign(h, s
 func (s *c09Signer) SignTx(tx *types.Transaction, chainID *big.Int) (*types.Transaction, error) {
 	return types.SignTx(tx, types.NewLondonSigner(chainID), s.key)
 }
-func (s *c09Signer) GetAddress() common.Address              { return crypto.PubkeyToAddress(s.key.PublicKey) }
+func (s *c09Signer) GetAddress() common.Address                { return crypto.PubkeyToAddress(s.key.PublicKey) }
 func (s *c09Signer) GetPrivateKey() (*ecdsa.PrivateKey, error) { return s.key, nil }
-func (s *c09Signer) ZeroPrivateKey(*ecdsa.PrivateKey)        {}
-func (s *c09Signer) String() string                          { return "c09" }
+func (s *c09Signer) ZeroPrivateKey(*ecdsa.PrivateKey)          {}
+func (s *c09Signer) String() string                            { return "c09" }
 
 // ---- one running case ------------------------------------------------------------------------------
 
@@ -97,7 +98,15 @@ type c09Run struct {
 	drainLg bool
 	closeCh chan error
 	lastAct time.Time
-	dirty   bool // a delivery may have happened since the client's own waiters were last logged
+	dirty   bool           // a delivery may have happened since the client's own waiters were last logged
+	ctxW    []c09CtxWaiter // WaitForReceipt callers with a context the driver can end
+	gaveUp  []uint64
+}
+
+type c09CtxWaiter struct {
+	w      uint64
+	cancel context.CancelFunc
+	done   chan struct{}
 }
 
 func (c *c09Run) settle() time.Duration { return time.Duration(25*c.slow) * time.Millisecond }
@@ -315,9 +324,39 @@ func (c *c09Run) step(s c09Step) {
 		c.intern = append(c.intern, w)
 		c.log(fmt.Sprintf("(Ev (InternalWatch %s %s))", coqN(uint64(len(c.hashes))), coqN(n)))
 		c.quiesce()
-	case "watch":
+	case "trace":
+		c.node.mu.Lock()
+		c.node.traceMode = int(s.A)
+		c.node.mu.Unlock()
+	case "giveup":
+		// end the context of the A-th cancellable WaitForReceipt caller that is still waiting
+		if int(s.A) >= len(c.ctxW) {
+			return
+		}
+		cw := c.ctxW[s.A]
+		select {
+		case <-cw.done:
+			return // it already has its answer
+		default:
+		}
+		cw.cancel()
+		select {
+		case <-cw.done:
+		case <-time.After(time.Duration(2*c.slow) * time.Second):
+		}
+		c.wMu.Lock()
+		left := len(c.waiters[cw.w].Outs) == 0
+		c.wMu.Unlock()
+		if left {
+			c.gaveUp = append(c.gaveUp, cw.w)
+			c.log(fmt.Sprintf("(Ev (GiveUp %s))", coqN(cw.w)))
+		}
+		c.quiesce()
+	case "watch", "watchctx":
 		h := c.txHash(s.H)
 		w := c.newWaiter()
+		wctx, wcancel := context.WithCancel(ctx)
+		_ = wcancel
 		n, known := c.nonces[h]
 		if known {
 			c.resetExpect(n, h)
@@ -327,10 +366,12 @@ func (c *c09Run) step(s c09Step) {
 		c.wg.Add(1)
 		go func() {
 			defer c.wg.Done()
-			rc, err := c.client.WaitForReceipt(ctx, h)
+			rc, err := c.client.WaitForReceipt(wctx, h)
 			switch {
 			case err == nil:
 				c.outcome(w, c.classify(Result{Receipt: rc}))
+			case errors.Is(err, context.Canceled):
+				// the caller left: not an outcome of the monitor
 			case strings.Contains(err.Error(), "tx not found"):
 				c.wMu.Lock()
 				c.refused = append(c.refused, w)
@@ -341,6 +382,9 @@ func (c *c09Run) step(s c09Step) {
 			}
 			close(done)
 		}()
+		if s.Op == "watchctx" {
+			c.ctxW = append(c.ctxW, c09CtxWaiter{w: w, cancel: wcancel, done: done})
+		}
 		if known {
 			c.waitRegistered(n, h, done)
 		} else {
@@ -523,7 +567,11 @@ func c09RunCase(in c09In, slow int, emit func(string, interface{})) c09Obs {
 	c.rec = &c09Rec{inner: inner, node: c.node, logf: c.log, hid: c.hid, lastAct: time.Now()}
 	key, _ := crypto.HexToECDSA("4c0883a69102937d6231471b5dbb6204fe5129617082792ae468d01a3f362318")
 	logger := slog.New(slog.NewTextHandler(io.Discard, nil))
-	client, err := New(&c09Signer{key}, c.rec, logger)
+	var evmForClient EVM = c.rec
+	if _, ok := inner.(Debugger); ok {
+		evmForClient = &c09RecDbg{c.rec}
+	}
+	client, err := New(&c09Signer{key}, evmForClient, logger)
 	if err != nil {
 		return c09Obs{Note: "new: " + err.Error()}
 	}
@@ -565,7 +613,7 @@ func c09RunCase(in c09In, slow int, emit func(string, interface{})) c09Obs {
 	}
 	c.wMu.Lock()
 	defer c.wMu.Unlock()
-	obs := c09Obs{Items: c.items, CloseOK: closeOK, Refused: append([]uint64{}, c.refused...)}
+	obs := c09Obs{Items: c.items, CloseOK: closeOK, Refused: append([]uint64{}, c.refused...), GaveUp: append([]uint64{}, c.gaveUp...)}
 	var ids []uint64
 	for id := range c.waiters {
 		ids = append(ids, id)
@@ -592,8 +640,12 @@ func c09Coq(id int, in c09In, o c09Obs) string {
 	for _, r := range o.Refused {
 		refused = append(refused, coqN(r))
 	}
+	var gave []string
+	for _, r := range o.GaveUp {
+		gave = append(gave, coqN(r))
+	}
 	return coqRecord("id", coqN(uint64(id)), "transport", coqN(tr), "items", coqList(o.Items),
-		"outs", coqList(outs), "refusedw", coqList(refused), "crashed", coqBool(o.Crashed), "close_ok", coqBool(o.CloseOK))
+		"outs", coqList(outs), "refusedw", coqList(refused), "gaveup", coqList(gave), "crashed", coqBool(o.Crashed), "close_ok", coqBool(o.CloseOK))
 }
 
 // ---- child process protocol ---------------------------------------------------------------------
@@ -770,7 +822,9 @@ func c09Tail(s string) string {
 
 // ---- generators -----------------------------------------------------------------------------------
 
-func c09St(op string, h int, a, b uint64, k string) c09Step { return c09Step{Op: op, H: h, A: a, B: b, K: k} }
+func c09St(op string, h int, a, b uint64, k string) c09Step {
+	return c09Step{Op: op, H: h, A: a, B: b, K: k}
+}
 
 // hand-written schedules that sit on the decision points of the model
 func c09Directed(tr string) []struct {
@@ -865,6 +919,24 @@ func c09Directed(tr string) []struct {
 		mk("batch-fails-then-next-block", 0, S("send", 0, 0, 0, ""), S("watch", 1, 0, 0, ""), S("mine", 1, 1, 0, ""), S("fail", 0, 1, 0, c09KBatch),
 			S("block", 0, 1, 1, ""), S("poll", 0, 0, 0, ""), S("pend", 0, 0, 0, ""), S("fail", 0, 0, 0, c09KBatch), S("block", 0, 2, 1, ""),
 			S("tick", 0, 0, 0, ""), S("pend", 0, 0, 0, "")),
+		// a caller whose context ends leaves; everybody else on that transaction is unaffected
+		mk("giveup-others-unaffected", 0, S("send", 0, 0, 0, ""), S("watchctx", 1, 0, 0, ""), S("watch", 1, 0, 0, ""), S("watchraw", 1, 0, 0, ""),
+			S("giveup", 0, 0, 0, ""), S("pend", 0, 0, 0, ""), S("mine", 1, 1, 0, ""), S("block", 0, 1, 1, ""), S("poll", 0, 0, 0, ""), S("pend", 0, 0, 0, "")),
+		mk("giveup-inflight", 0, S("send", 0, 0, 0, ""), S("watchctx", 1, 0, 0, ""), S("watch", 1, 0, 0, ""), S("hold", 0, 1, 0, c09KBatch),
+			S("mine", 1, 0, 0, ""), S("block", 0, 1, 1, ""), S("poll", 0, 0, 0, ""), S("giveup", 0, 0, 0, ""), S("rel", 0, 0, 0, c09KBatch),
+			S("pend", 0, 0, 0, "")),
+		mk("giveup-replaced", 0, S("send", 0, 0, 0, ""), S("watch", 1, 0, 0, ""), S("watchctx", 1, 0, 0, ""), S("watchctx", 1, 0, 0, ""),
+			S("giveup", 1, 0, 0, ""), S("block", 0, 1, 1, ""), S("poll", 0, 0, 0, ""), S("pend", 0, 0, 0, ""), S("giveup", 0, 0, 0, "")),
+		mk("giveup-alone", 0, S("send", 0, 0, 0, ""), S("watchctx", 1, 0, 0, ""), S("giveup", 0, 0, 0, ""), S("mine", 1, 1, 0, ""),
+			S("block", 0, 1, 1, ""), S("poll", 0, 0, 0, ""), S("pend", 0, 0, 0, ""), S("watch", 1, 0, 0, "")),
+		// a reverted transaction (receipt status 0): its receipt is an outcome like any other, whatever
+		// the node's debug API does (not available / failing / answering)
+		mk("failed-receipt-no-debug-api", 0, S("send", 0, 0, 0, ""), S("watch", 1, 0, 0, ""), S("watchraw", 1, 0, 0, ""), S("mine", 1, 0, 0, ""),
+			S("block", 0, 1, 1, ""), S("poll", 0, 0, 0, ""), S("pend", 0, 0, 0, "")),
+		mk("failed-receipt-trace-error", 0, S("trace", 0, 2, 0, ""), S("send", 0, 0, 0, ""), S("send", 0, 1, 0, ""), S("watch", 1, 0, 0, ""),
+			S("watch", 2, 0, 0, ""), S("mine", 1, 0, 0, ""), S("mine", 2, 1, 0, ""), S("block", 0, 1, 2, ""), S("poll", 0, 0, 0, ""), S("pend", 0, 0, 0, "")),
+		mk("failed-receipt-trace-ok", 0, S("trace", 0, 1, 0, ""), S("send", 0, 0, 0, ""), S("watch", 1, 0, 0, ""), S("mine", 1, 0, 0, ""),
+			S("err", 1, 1, 0, ""), S("block", 0, 1, 1, ""), S("poll", 0, 0, 0, ""), S("pend", 0, 0, 0, "")),
 		mk("close-idle", 0, S("send", 0, 0, 0, ""), S("watch", 1, 0, 0, ""), S("watchraw", 1, 0, 0, ""), S("pend", 0, 0, 0, ""),
 			S("hold", 0, 1, 0, c09KBatch), S("mine", 1, 1, 0, ""), S("block", 0, 1, 1, ""), S("poll", 0, 0, 0, ""), S("close", 0, 0, 0, ""),
 			S("watch", 1, 0, 0, ""), S("rel", 0, 0, 0, c09KBatch)),
@@ -953,7 +1025,11 @@ func c09Random(r *rand.Rand, tr string) c09In {
 	batchHeldOverClose := false
 	holdBatch := false
 	kinds := []string{c09KNonce, c09KBatch, c09KReceipt}
+	nctx := 0
 	add := func(s c09Step) { in.Steps = append(in.Steps, s) }
+	if r.Intn(3) == 0 {
+		add(c09St("trace", 0, uint64(r.Intn(3)), 0, ""))
+	}
 	add(c09St("send", 0, pendingNonce, 0, ""))
 	sent++
 	for i := 0; i < nsteps; i++ {
@@ -974,17 +1050,30 @@ func c09Random(r *rand.Rand, tr string) c09In {
 			if r.Intn(10) == 0 {
 				h = sent + 1 + r.Intn(2)
 			}
-			if r.Intn(3) == 0 {
-				add(c09St("watchraw", h, uint64(r.Intn(4)), 0, ""))
-			} else {
+			switch r.Intn(6) {
+			case 0, 1:
+				// one nonce per hash: through the client a hash determines its nonce; raw watchers with two
+				// nonces for one hash make check() ask that hash twice and pick the bucket by map order
+				r.Intn(4)
+				add(c09St("watchraw", h, uint64(h%4), 0, ""))
+			case 2:
+				add(c09St("watchctx", h, 0, 0, ""))
+				nctx++
+			default:
 				add(c09St("watch", h, 0, 0, ""))
 			}
 		case x < 45:
 			blk += uint64(r.Intn(3))
 			add(c09St("block", 0, blk, pendingNonce+uint64(r.Intn(sent+2)), ""))
 			add(c09St("poll", 0, 0, 0, ""))
-		case x < 52:
+		case x < 49:
 			add(c09St("poll", 0, 0, 0, ""))
+		case x < 52:
+			if nctx > 0 {
+				add(c09St("giveup", 0, uint64(r.Intn(nctx)), 0, ""))
+			} else {
+				add(c09St("poll", 0, 0, 0, ""))
+			}
 		case x < 64:
 			add(c09St("mine", 1+r.Intn(sent), uint64(r.Intn(2)), 0, ""))
 		case x < 67:
